@@ -21,13 +21,9 @@ open Lcapy.Fourier
 /-- every recognised branch of `FourierTransformer.term` returns, in the forward direction, the spec's formal pair -/
 theorem ft_table_forward : ∀ e ∈ Gen.table, entryForwardOk e = true := by decide
 
-/- Full statement (fails on the current source: finding F12, branch `other == Heaviside(t)` writes `f` where `sf` is meant):
-     theorem ft_table_inverse : ∀ e ∈ Gen.table, entryInverseOk e = true
-   The harness asks the driver for `entryInverseOk` of every generated entry on every run and treats a `false` as a broken
-   obligation that the oracle must explain by a concrete failing input. -/
-/-- `inverseEntry e = reflect (forwardEntry e)` for every generated table branch except the recorded finding F12 -/
-theorem ft_table_inverse_partial :
-    ∀ e ∈ Gen.table, e.src ≠ "other == Heaviside(t)" → entryInverseOk e = true := by decide
+/-- `inverseEntry e = reflect (forwardEntry e)` for every generated table branch of `FourierTransformer.term`
+    (F12 -- the `other == Heaviside(t)` branch wrote `f` where `sf` is meant -- is fixed in the source) -/
+theorem ft_table_inverse : ∀ e ∈ Gen.table, entryInverseOk e = true := by decide
 
 /-- why: a branch is reflection-consistent exactly when every sub-expression that is not an even atom is written with `sf` -/
 theorem ft_table_inverse_iff_sf :
@@ -102,14 +98,9 @@ theorem delta_scaling (kappa : Rat) (hk : kappa ≠ 0) (n : Nat) (t : Term) (ha 
 theorem scale_argument (kappa x : Rat) (t : Term) : (scaleT kappa t).a * x + (scaleT kappa t).b = t.a * (kappa * x) + t.b := by
   simp [scaleT]; ring
 
-/- Full statement (fails on the current source: the conversion methods of normfexpr.py / normomegaexpr.py substitute the wrong
-   monomials; findings F12d/F12e):   theorem norm_variants : ∀ c ∈ Gen.conversions, convOk c = true -/
-/-- every conversion row except the seven recorded wrong ones substitutes v_src = (k_src/k_dst)·v_dst,
-    k_f = 1, k_ω = 2π, k_F = Δt, k_Ω = 2πΔt -/
-theorem norm_variants_partial :
-    ∀ c ∈ Gen.conversions,
-      (c.src, c.dst) ∉ [(Dom.F, some Dom.omega), (.F, some .F), (.F, some .Omega), (.F, none),
-                        (.Omega, some .f), (.Omega, some .omega), (.Omega, some .F)] → convOk c = true := by decide
+/-- every conversion row substitutes v_src = (k_src/k_dst)·v_dst, k_f = 1, k_ω = 2π, k_F = Δt, k_Ω = 2πΔt
+    (the rows of normfexpr.py / normomegaexpr.py, findings F12d/F12e, are fixed in the source) -/
+theorem norm_variants : ∀ c ∈ Gen.conversions, convOk c = true := by decide
 
 /-- the rows from the time domain's result (`fexpr.py`) to all four variables are right, so x(f), x(ω), x(F), x(Ω) are consistent -/
 theorem norm_variants_from_f : ∀ c ∈ Gen.conversions, c.src = .f → convOk c = true := by decide
@@ -168,7 +159,7 @@ theorem anchor_gaussian :
 
 /-- `ft_generalised_partial`: the pairs for constants, steps, signum, powers, 1/x, |x| and deltas are *formal*
     generalised-function pairs (no integral exists); what is proved about them is their mutual consistency:
-    each is reflection-consistent in the code's table (`ft_table_inverse_partial`), equal to the spec's pair
+    each is reflection-consistent in the code's table (`ft_table_inverse`), equal to the spec's pair
     (`ft_table_forward`), and the spec's pairs are related by duality in the evaluable cases below
     (F{F{sgn}} = sgn(−·), F{F{|·|}} = |·|, F{F{1/x}} = 1/(−x), F{F{1/x²}} = 1/x²). -/
 theorem ft_generalised_partial (pi : Rat) (hpi : pi ≠ 0) :
